@@ -244,9 +244,17 @@ def run(ctx: Ctx) -> None:
         except Exception as err:  # pylint: disable=broad-except
             raise MachineryError(f"cannot snapshot untransformed {kind}: {err}") from err
         size = max(vdist(p, base["points"][0]) for p in base["points"]) or 1.0
+        # stratified by the number of mirrors in the composition (orientation flips an even/odd number of times) and by
+        # style, so that every entity meets 0, 1, 2 and 3 mirrors as a list and as method calls
         chosen = rng.sample(progs, per_kind)
-        for pr in chosen:
-            style = rng.choice(["methods", "list"])
+        styles = [rng.choice(["methods", "list"]) for _ in chosen]
+        for nm in (1, 2, 3):
+            group = [pr for pr in progs if sum(1 for t in pr["ts"] if t["kind"] == "mirror") == nm]
+            if group:
+                for style in ("list", "methods") if (nm == 2 or ctx.tier == "thorough") else (rng.choice(["list", "methods"]),):
+                    chosen.append(rng.choice(group))
+                    styles.append(style)
+        for pr, style in zip(chosen, styles):
             sig = f"transform:{kind}:{'+'.join(sorted({t['kind'] for t in pr['ts']}))}"
             replay = {"entity": kind, "maps": pr["idx"], "style": style}
             ctx.evaluated(f"{kind}:{pr['idx']}:{style}")
@@ -271,6 +279,21 @@ def run(ctx: Ctx) -> None:
             ctx.evaluated(f"copy:{kind}")
         except Exception as err:  # pylint: disable=broad-except
             ctx.violation(f"copy:{kind}:raises:{type(err).__name__}", f"copy of {kind} raised {err}", {"entity": kind})
+    # Operation.invert() (what Operation.mirror() uses to stay right side out): the same points and the same drawn edges
+    for kind in ("loft_edges", "oncurve_loft", "box", "extrude", "revolve", "wedge"):
+        base = snapshot(kind, build[kind]())
+        size = max(vdist(p, base["points"][0]) for p in base["points"]) or 1.0
+        for times in (1, 2):
+            try:
+                ent = build[kind]()
+                for _ in range(times):
+                    ent.invert()
+                got = snapshot(kind, ent)
+            except Exception as err:  # pylint: disable=broad-except
+                ctx.violation(f"invert:{kind}:raises:{type(err).__name__}", f"inverting {kind} raised {err}", {"entity": kind})
+                continue
+            ctx.evaluated(f"invert:{kind}:{times}")
+            compare(ctx, f"invert:{kind}:x{times}", f"{kind} inverted {times} time(s)", got, base, [], 1.0, size, {"entity": kind, "times": times})
     # a copied hemisphere must still be writable with its geometry defined
     hemisphere_copy(ctx)
     # helpers must not modify their arguments
